@@ -49,6 +49,8 @@ POSITIONAL = {
     ('PackBuildCommand', 'image_name'): 'library generated image name',
     ('PackSbomDownloadCommand', 'image_name'): 'library generated image name',
 }
+# docker stops option parsing at the first positional: (positional field, the field holding the trailing command)
+TRAILING = {'DockerRunCommand': ('image_name', 'command'), 'DockerExecCommand': ('container_name', 'command')}
 CONTAINER_SETTERS = {'entrypoint': 'entrypoint', 'command': 'command', 'env': 'env', 'exposed_ports': 'expose_port', 'bind_mounts': 'bind_mount'}
 
 
@@ -72,6 +74,7 @@ def run(ctx, rep):
         rep.check(first is not None and first[0] == 'const' and not first[1].startswith('-'), 'R1', short + '/subcommand', where, 'first word is the constant sub-command', 'first argv word is %s' % (first,))
         used = set()
         seen_image = False
+        after_image_bad = []
         # `.arg("--x").arg(value)` and `.args(["--x", value])` are the same argv: merge consecutive contributions
         # made under identical guards / in the same loop
         merged = []
@@ -89,6 +92,9 @@ def run(ctx, rep):
                 used.add(it.loop)
             prev = None
             for e in it.elems:
+                if seen_image and short in TRAILING and not (e[0] == 'field' and e[1] == TRAILING[short][1]):
+                    # docker stops option parsing at the image: whatever follows it *is* the container command
+                    after_image_bad.append((it, e))
                 if e[0] == 'field':
                     used.add(e[1])
                     ok_opt = prev is not None and prev[0] == 'const' and prev[1].startswith('--')
@@ -103,11 +109,16 @@ def run(ctx, rep):
                         rep.check(good, 'R1', subj, it.call.where(), 'positional: ' + pos, 'container command is not the trailing argv part after the image')
                     else:
                         rep.violated('R1', subj, it.call.where(), 'field %s reaches argv outside an option-value position (preceded by %s): a value starting with "-" would be parsed as an option' % (e[1], prev))
-                    if (short, e[1]) == ('DockerRunCommand', 'image_name'):
+                    if (short, e[1]) == ('DockerRunCommand', 'image_name') or (short in TRAILING and e[1] == TRAILING[short][0]):
                         seen_image = True
                 elif e[0] == 'other':
                     rep.unproven('R1', '%s/unrecognised' % short, it.call.where(), 'argv element of unknown origin: %s' % e[1])
                 prev = e
+        if short in TRAILING:
+            rep.check(seen_image and not after_image_bad, 'R1', short + '/after-image', where,
+                      'nothing but the configured command follows the %s' % TRAILING[short][0],
+                      'argv words after the %s become part of the container command: %s' % (TRAILING[short][0], 
+                          '; '.join('%s at %s' % (e[1] if e[0] != 'const' else repr(e[1]), it.call.where()) for it, e in after_image_bad[:3]) or 'image not found'))
         # fields consumed through a `match` that selects a constant word (e.g. pull_policy)
         if any(e[0] == 'const-choice' for it in items for e in it.elems):
             for b in f.blocks:
